@@ -547,13 +547,19 @@ def run(ctx, rep):
                  'C02c')
     k += add_ret(rep, param_reaches_returns(an, program, 'peptacular.chem.chem_util:chem_mass',
                                             ['formula', 'monoisotopic']), 'C02c')
-    numeric = {('monoisotopic', 'return mod'): 'a numeric shift has no isotopic mode',
-               ('monoisotopic', 'return round(mod, precision) if precision is not None else mod'):
-                   'a numeric shift has no isotopic mode',
-               ('monoisotopic', 'return 0.0'): 'a bare localisation tag weighs nothing in either mode',
-               ('monoisotopic', 'return None'): 'unresolved: the caller raises',
-               ('monoisotopic', 'return _parse_obs_mass_from_proforma_str(mod, precision)'):
-                   'an observed mass is a number: it has no isotopic mode'}
+    def numeric(pname, node, av):
+        """a value computed from the number / text of the modification with built-ins only (or by the observed-mass
+        reader) has no isotopic mode; a constant is the designed zero of a bare tag or the unresolved None"""
+        if pname != 'monoisotopic' or node.value is None:
+            return None
+        if isinstance(node.value, ast.Constant):
+            return 'a constant: the designed zero of a bare localisation tag, or None for "unresolved" (the caller raises)'
+        calls = [c_ for c_ in ast.walk(node.value) if isinstance(c_, ast.Call)]
+        names = {norm_stmt(c_.func) for c_ in calls}
+        if names <= {'round', 'float', 'int', 'abs', '_parse_obs_mass_from_proforma_str'} and \
+                {d for d in av.deps if not d.startswith('@')} <= {'mod', 'precision'}:
+            return 'a numeric shift (or an observed mass) is a number: it has no isotopic mode'
+        return None
     k += add_ret(rep, param_reaches_returns(an, program, 'peptacular.mass_calc:mod_mass', ['mod', 'monoisotopic'],
                                             exempt=numeric), 'C02c')
     k += add_ret(rep, param_reaches_returns(an, program, 'peptacular.mass_calc:_parse_mod_mass',
@@ -579,3 +585,5 @@ def check(ctx, rep):
     run(ctx, rep)
     from .common import memo_rule
     memo_rule(ctx, rep, 'C02g', ('peptacular.mass_calc', 'peptacular.chem.chem_util', 'peptacular.mods.mod_db', 'peptacular.glycan'))
+    from .common import stale_accumulator_rule
+    stale_accumulator_rule(ctx, rep, 'C02b', ('peptacular.mass_calc', 'peptacular.chem.chem_calc'), floor=3)
